@@ -1,5 +1,13 @@
-// ---- TRUSTED: std VecDeque methods vstd does not specify
+// ---- TRUSTED: std VecDeque facts vstd does not provide
+pub mod vdeque {
+use vstd::prelude::*;
 verus! {
 pub assume_specification<T, A: std::alloc::Allocator>[ std::collections::VecDeque::<T, A>::is_empty ](v: &std::collections::VecDeque<T, A>) -> (r: bool)
     ensures r == (v@.len() == 0);
+/// Rust allocation guarantee: a collection never holds more than isize::MAX elements
+pub broadcast axiom fn axiom_vecdeque_len_bound<T>(v: std::collections::VecDeque<T>)
+    ensures #[trigger] v@.len() <= isize::MAX;
+pub broadcast group group_vecdeque { axiom_vecdeque_len_bound }
 }
+}
+pub use vdeque::*;
